@@ -57,6 +57,9 @@ def _pure_place(e):
         return all(_pure_place(f.get("e")) for f in e.get("fields", []))
     if k == "MethodCall" and e.get("name") in _PURE_METHODS and not e.get("args"):
         return _pure_place(e.get("recv"))
+    if k == "MethodCall" and e.get("name") == "flag" and len(e.get("args") or []) == 1 and str(e.get("def", "")).endswith("Parser::<'a>::flag") | str(e.get("resolved", "")).endswith("::flag"):
+        # Parser::flag(&self, bit) only reads self.flags
+        return _pure_place(e.get("recv")) and _pure_place(e["args"][0])
     return False
 
 
@@ -101,6 +104,8 @@ def inline_new_locals(facts):
                             free.add(n.get("name"))
                         if n.get("k") == "Field" and isinstance(n.get("e"), dict) and n["e"].get("k") == "Path" and n["e"].get("name") == "self":
                             free.add("self." + str(n.get("name")))
+                        if n.get("k") == "MethodCall" and n.get("name") == "flag":
+                            free.add("self.flags")
                     bid = pat.get("id")
                     unsafe = bool(free & written)
                     if unsafe:
